@@ -61,6 +61,8 @@ extern "C" int LLVMFuzzerTestOneInput(const uint8_t *data, size_t size) {
     try { g_prop->fn(s, ctx); }
     catch (Violation &v) { fail(data, size, v.oracle, v.msg); }
     catch (Discard &) { discard = true; }
+    catch (std::runtime_error &e) { std::string m = e.what();   // (see main_rc.cpp: level beyond a finite rule table)
+        if (m.find("rule needed with level") != std::string::npos && m.find(", but only ") != std::string::npos) discard = true; else fail(data, size, std::string(g_prop->id) + ".unexpected-exception", m); }
     catch (std::exception &e) { fail(data, size, std::string(g_prop->id) + ".unexpected-exception", e.what()); }
     catch (...) { fail(data, size, std::string(g_prop->id) + ".unexpected-exception", "non-std exception"); }
     g_stats.evaluations++;
